@@ -22,6 +22,7 @@ verus! {
 //@include spec/binop.spec.rs
 //@include spec/parser.spec.rs
 //@include spec/grammar.spec.rs
+//@include spec/scope.spec.rs
 
 impl Token {
 //@fn Token.error
